@@ -19,7 +19,7 @@ import (
 func init() {
 	register(&core.Rule{Name: "C01/REC-anyvar", Props: []string{"C01", "C05"}, Min: 2,
 		Doc: "valueHasVariables recurses into every child of every container literal and leaves a child loop early only with `true`", Run: recAnyVar})
-	register(&core.Rule{Name: "C20/REC-copy", Props: []string{"C20", "C06"}, Min: 2,
+	register(&core.Rule{Name: "C20/REC-copy", Props: []string{"C20", "C06", "C05", "C12"}, Min: 2,
 		Doc: "the per-call copy of plan-owned argument values recurses into every map value and list element", Run: recCopy})
 	register(&core.Rule{Name: "C13/FLOW-forced", Props: []string{"C13", "C04"}, Min: 4,
 		Doc: "a result traversal that forces a thunk descends into the forced value, not into the value it tested", Run: flowForced})
